@@ -360,6 +360,25 @@ def r3_nesting_errors_raise(ctx, rep):
     cl = [x for x in eev if x.kind == "call" and call_name(x.node) == "self._cleanup"]
     ok = bool(rets) and bool(cl) and all(astq.path_implies(x, file_atom, {"lvl0": True}) is True for x in rets + cl)
     rep.ob("END closes the container only at block level 0", ok, "", py.nloc(e.test))
+    # ... and one that rejects the file: print_error only prints under the default `dbg`, so the rejection is either a `raise` on
+    # that path or the closing call `self._cleanup()` itself - the file object has nothing to close and inherits the base
+    # method, which raises.  A source file that grows a working `_cleanup` turns the dangling END into a normal end of the parse:
+    # what precedes it is documented, the rest of the file is silently dropped, nothing is reported as rejected
+    file_raises = [x for x in eev if x.kind == "raise" and astq.event_fires(x, file_atom, {"file": True, "lvl0": True}) is not False
+                   and not [c_ for c_ in x.conds if file_atom(c_[0]) is None and not (isinstance(c_[0], ast.UnaryOp) and file_atom(c_[0].operand))]]
+    closing = [x for x in cl if astq.event_fires(x, file_atom, {"file": True, "lvl0": True}) is not False]
+    res = py.resolve_method("FortranSourceFile", "_cleanup")
+    cleanup_raises = False
+    if res is not None:
+        cev_ = astq.trace(res[1])
+        first = next((x for x in cev_ if x.kind in ("raise", "call", "assign", "return")), None)
+        cleanup_raises = first is not None and first.kind == "raise" and not first.conds
+    ok = bool(file_raises) or (bool(closing) and cleanup_raises)
+    rep.ob("END at file level rejects the file", ok,
+           (f"the closing call resolves to {res[0]}._cleanup, which raises" if not file_raises else "a raise follows the diagnostic") if ok else
+           f"for the file object `self._cleanup()` resolves to {res[0] if res else '?'}._cleanup, which returns normally, and no raise is on "
+           f"that path: a file with an unbalanced END is not skipped - it is cut off at that statement without a rejection",
+           py.nloc(res[1]) if res else py.nloc(e.test))
     # any statement may carry a label; the one that matters here is END (`99 end`, the target of a `goto 99` in older code): if
     # the pattern that recognises END does not accept a label in front of it the unit is never closed, and everything after it in
     # the file is nested into it or rejected
